@@ -148,6 +148,12 @@ class _PatchAsync(_patch):
     def __enter__(self):
         mock_fn = super(_PatchAsync, self).__enter__()
         try:
+            if self.new_callable is not None:
+                # what new_callable produced gets the same treatment as an explicitly passed new
+                wrapped = _maybe_wrap_new(mock_fn)
+                if wrapped is not mock_fn:
+                    setattr(self.target, self.attribute, wrapped)
+                    mock_fn = wrapped
             # so we can also mock non-functions for compatibility
             if callable(mock_fn):
                 async_fn = _AsynqWrapper(mock_fn)
